@@ -1,11 +1,16 @@
 use std::collections::{HashMap, hash_map};
 use std::mem::ManuallyDrop;
 use std::ops::Deref;
+#[cfg(folo_verif)]
+use std::sync::Arc;
+#[cfg(not(folo_verif))]
 use std::sync::{Arc, RwLock};
 use std::thread::{self, ThreadId};
 
 use simple_mermaid::mermaid;
 
+#[cfg(folo_verif)]
+use crate::__verif::sync::RwLock;
 use crate::{BuildThreadIdHasher, ERR_POISONED_LOCK};
 
 /// A wrapper that manages linked instances of `T`, ensuring that only one
